@@ -61,6 +61,8 @@ def run(opts):
                 continue
             chk.evaluations += 1
             chk.traces += 1
+            if ev.get("fragile"):
+                chk.notes["reference_discontinuous_set_aside"] = chk.notes.get("reference_discontinuous_set_aside", 0) + 1
             if not ev["ok"]:
                 case = byid[ev["id"]]
                 chk.violation({"kind": "ad-mismatch", "why": ev["why"], "case": case, "expected": exp.get(ev["id"])},
@@ -74,7 +76,9 @@ def run(opts):
                 "programs modulo variable slots")
     for c in cases[:3]:
         chk.sample({"n": c["n"], "prog": c["prog"]})
-    chk.assumptions = ["<cmath> in long double is the numeric reference for the named functions; agreement 2e-10 relative+absolute",
+    chk.assumptions = ["a slot whose reference expression itself jumps when its constants are perturbed by 4e-9 relative (atan2 on its "
+                       "branch cut, abs / min / max at a tie, an exact cancellation in front of one) is set aside and counted",
+                       "<cmath> in long double is the numeric reference for the named functions; agreement 2e-10 relative+absolute",
                        "abs/min/max only on rational values without ties (sign and order decided by TLC)",
                        "leaves are created with createVariable(value, pos)/createConstant(value); the generic static "
                        "implementation's (nVars, ...) overloads do not compile / throw and are not used"]
